@@ -246,7 +246,7 @@ def run(ctx):
 
     # ---- (c) always: dynamic confirmation ---------------------------------------------------------------------------
     leaky_names = set(e.split(":")[1].split(".")[-1] for e in summ["leaky_public_entries"])
-    flagged = [s for s in all_specs if prec_dynamic.spec_entry(s) in leaky_names or s in SITE_OVERRIDE]
+    flagged = [s for s in all_specs if prec_dynamic.spec_entry(s) in leaky_names or s in SITE_OVERRIDE or s.endswith('_closure')]
     if ctx.quick:
         rest = [s for s in all_specs if s not in flagged and s not in searched_hard]
         rng.shuffle(rest)
